@@ -4,7 +4,7 @@ usage: seedcheck.py <seed-id> <property> <dir with patch.diff, demo/, NOTES.md> 
 Copies the material to /verif/seeded/<seed-id>/, verifies in scratch worktrees of /repo (removed afterwards) that
  (1) the patch applies and the tree builds, (2) the repository's own suite still passes, (3) the demonstration fails
  with the change and passes without it, then runs every check of MANIFEST.json against the changed tree and writes meta.json."""
-import json, os, shutil, subprocess, sys, tempfile, concurrent.futures as cf
+import time, json, os, shutil, subprocess, sys, tempfile, concurrent.futures as cf
 V="/verif"; REPO="/repo"
 ENV=dict(os.environ, GOFLAGS="-mod=mod", GOPROXY="off", GOSUMDB="off", GOTOOLCHAIN="local"); ENV.pop("GOWORK",None)
 sid, prop, src = sys.argv[1:4]
@@ -18,12 +18,21 @@ if os.path.abspath(src)!=os.path.abspath(dst):
     if os.path.exists(f"{src}/NOTES.md"): shutil.copy(f"{src}/NOTES.md", f"{dst}/NOTES.md")
 tmp=tempfile.mkdtemp(prefix="seed-"); wt=f"{tmp}/repo"; base=f"{tmp}/base"
 meta={"seed":sid,"property":prop,"ran":[]}
+def wt_add(path):
+    """git worktree add with retries (other processes may hold the repository lock)"""
+    for i in range(8):
+        p = subprocess.run(["git", "-C", REPO, "worktree", "add", "--detach", "-f", path], capture_output=True, text=True)
+        if p.returncode == 0:
+            return
+        time.sleep(1 + i)
+    raise RuntimeError("git worktree add failed: " + p.stderr)
+
 def sh(cmd, cwd=None, env=ENV, timeout=1800):
     p=subprocess.run(cmd, cwd=cwd, env=env, capture_output=True, text=True, shell=isinstance(cmd,str), timeout=timeout)
     return p.returncode, (p.stdout+p.stderr)
 try:
     for d in (wt, base):
-        rc,out=sh(["git","-C",REPO,"worktree","add","--detach","-f",d]); assert rc==0, out
+        wt_add(d)
     rc,out=sh(["git","-C",wt,"apply","--whitespace=nowarn",f"{dst}/patch.diff"]); meta["patch_applies"]=rc==0
     assert rc==0, "patch does not apply: "+out
     rc,out=sh(["go","build","./..."],cwd=wt); meta["builds"]=rc==0; meta["ran"].append("go build ./...")
